@@ -389,7 +389,7 @@ def obligations(tier):
         for n in (1, 2, 3, 4, 5):
             obs.append(mk_loc_slice(n))
             obs.append(mk_partition_of(n))
-        obs += [mk_loc_element(4), mk_loc_list(2, 3), mk_loc_list(3, 3), mk_loc_list(4, 2), mk_more_numeric(3, 8), mk_from_pandas(7), mk_set_index(6, 3)]
+        obs += [mk_loc_element(4), mk_loc_list(2, 3), mk_loc_list(3, 3), mk_loc_list(4, 2), mk_more_numeric(3, 8), mk_from_pandas(6), mk_set_index(5, 3)]
         for na in (2, 3, 4):
             for nb in (2, 3, 4, 5):
                 for force in (False, True):
